@@ -562,7 +562,7 @@ int disasm_dspic(
           return 4;
         case OP_WM_WM_ACC_WX_WY:
           a = (opcode >> 15) & 0x1;
-          d = ((opcode >> 16) & 0x3) + 4;
+          d = (opcode >> 16) & 0x3;
           snprintf(instruction, length, "%s w%d*w%d, %c", table_dspic[n].name, d + 4, d + 4, accum[a]);
           parse_dsp(instruction, opcode, 0);
           return 4;
